@@ -227,6 +227,10 @@ def r3_r4(p, rep):
                     rfacts.append(("expr", P.path(t), "", pol, t))
             if isinstance(e, ast.Call) and isinstance(e.func, ast.Name) and e.func.id == tr and len(e.args) == 1:
                 sub, pth = P.is_subterm(e.args[0])
+                if not sub and pth.startswith("None"):
+                    # where the replacement comes from cannot be followed (it is reached through a loop variable, an
+                    # element of a sequence, ...): a rewrite of a kind this rule has no model of - no verdict
+                    raise AnalysisError(f"unrecognised idiom: {f.qualname} returns transform({norm(e.args[0])[:40]}) whose origin in the matched node cannot be followed (a new kind of rewrite)")
                 key = f"{f.qualname}:return(transform({pth}))"
                 rep.add("C05.R4", key, site, sub, f"replacement transform({pth}) is a strict sub-term of the matched node" if sub else f"`{norm(e.args[0])}` (= {pth}) is not derived from a strict sub-term of the matched node: the rewrite need not make the graph smaller")
                 n_drop += 1
